@@ -251,6 +251,8 @@ def run(P, R, L):
     # Drop: wait loop before take (shared with C09 ORD-12)
     from .c09 import ord12
     ord12(P, R, L)
+    R.clause("FS-2", "every directory / file mutation of the disk file systems is the std::fs function of the same name (destroy_database relies on remove_dir refusing a non-empty directory)")
+    K.fs2_disk_operations_are_their_namesakes(P, R, L)
     R.not_decided += ["behaviour of racing opens (decided by flock semantics, assumed)"]
     R.assumptions += ["flock(2): two descriptors of one process conflict; exactly one of racing try_lock calls wins",
                       "InMemoryFileSystem is not disk-backed and is out of the property's scope"]
